@@ -113,6 +113,8 @@ func c13(r *Report) {
 	// (5) compensation tables
 	c13Compensation(r, th, rb)
 	c13CreateExistsInTx(r)
+	c13OneTransactionID(r)
+	c13AuditFixes(r)
 }
 
 // lookupOK: ok results of map lookups (v, ok := m[k]).
@@ -309,18 +311,18 @@ func c13SweepPerTransaction(r *Report, cl *ssa.Function) {
 }
 
 func c13SweepDelay(r *Report, rb *ssa.Function) {
-	rule := "ARG: the sweep only considers versions older than a positive delay (time.Now().Add(-d), d > 0)"
+	rule := "ARG: the sweep only considers versions older than the grace period for in-flight operations (time.Now().Add(-d), d >= 1 minute as documented; updated_at has whole-second resolution, so a duration written without a unit — nanoseconds — is no grace period at all)"
 	key := "C13.sweep.delay"
 	n := 0
 	for _, ci := range Calls(rb, Fn("std:time", "Time", "Add")) {
 		n++
-		if d, ok := ConstInt(StripConv(ci.Common().Args[1])); ok && d < 0 {
+		if d, ok := ConstInt(StripConv(ci.Common().Args[1])); ok && d <= -60_000_000_000 {
 			r.Sites++
 			r.OK(key, rule, r.P.Pos(ci.Pos()), fmt.Sprintf("delay %dns", -d), false)
 			return
 		}
 	}
-	r.Bad(key, rule, r.P.Pos(rb.Pos()), fmt.Sprintf("no time.Now().Add(negative constant) found (%d Add calls)", n))
+	r.Bad(key, rule, r.P.Pos(rb.Pos()), fmt.Sprintf("no time.Now().Add(constant <= -1 minute) found (%d Add calls)", n))
 }
 
 func c13Version(r *Report) {
@@ -608,4 +610,73 @@ func c13SweepGroupKey(r *Report, cl *ssa.Function) {
 		return
 	}
 	r.OK(key, rule, r.P.Pos(cl.Pos()), fmt.Sprintf("%d grouping update(s)", n), true)
+}
+
+// c13OneTransactionID: the change-log records of one subject operation share one transaction id — the id stored in a
+// DIDChangeLog record inside the loop over the subject's DIDs is computed outside that loop (the sweep decides per
+// transaction id whether ALL its members are committed; an id per DID turns "all or nothing" into "each on its own").
+func c13OneTransactionID(r *Report) {
+	p := r.P
+	rule := "ARG: DIDChangeLog.TransactionID is assigned a value computed outside every loop that contains the assignment (one id per operation)"
+	n := 0
+	for _, s := range p.FieldStores("storage/orm", "DIDChangeLog", "TransactionID") {
+		if p.FileClass(p.FuncPos(s.Fn)) != "prod" {
+			continue
+		}
+		n++
+		st := s.Instr.(*ssa.Store)
+		key := "C13.changelog.one-transaction-id @ " + p.FuncName(s.Fn)
+		def, ok := StripConv(st.Val).(ssa.Instruction)
+		bad := ""
+		for _, l := range Loops(s.Fn) {
+			if !l.Body[st.Block()] {
+				continue
+			}
+			if ok && def.Parent() == s.Fn && l.Body[def.Block()] {
+				bad = "the id (" + AccessPath(st.Val, 0) + ") is computed inside the loop at " + p.Pos(blockPosOf(l.Header))
+			}
+			if carried, _ := LoopCarried(st.Val, st.Block()); carried {
+				bad = "the id varies between iterations"
+			}
+		}
+		if bad != "" {
+			r.Bad(key, rule, p.Pos(st.Pos()), bad+": every DID of the operation gets its own transaction id")
+			continue
+		}
+		r.OK(key, rule, p.Pos(st.Pos()), "loop-invariant", true)
+	}
+	r.Sites += n
+	if n < 3 {
+		r.Lost("C13.changelog.one-transaction-id", rule, fmt.Sprintf("%d stores to DIDChangeLog.TransactionID in production code (expected >= 3)", n))
+	}
+}
+
+// c13AuditFixes: rules for the defects found by the audit round.
+func c13AuditFixes(r *Report) {
+	p := r.P
+	const dn = "vdr/didnuts"
+	// (a) the sweep can decide about a creation that was never published: "not found on the network" means "not committed", it
+	//     is not an error (which aborts the sweep for every subject, every minute)
+	ic := p.Func(dn, "Manager", "IsCommitted")
+	notFound := CallCheck(Fn("std:errors", "", "Is"), -1, IsFalse)
+	notFound.Desc = "errors.Is(err, resolver.ErrNotFound) is false"
+	notFound.ArgOK = func(ci ssa.CallInstruction) string {
+		if !strings.Contains(AccessPath(CallArg(ci.Common(), 1), 0), "ErrNotFound") {
+			return "errors.Is target is " + AccessPath(CallArg(ci.Common(), 1), 0) + ", not resolver.ErrNotFound"
+		}
+		return ""
+	}
+	r.Gate(Gate{ID: "C13.sweep.unpublished-create-is-not-an-error", Fn: ic, Effect: ReturnsNonNil(1), Check: notFound})
+	// (b) an update of a deactivated did:nuts document FAILS the commit (so the new versions of all DIDs of the subject are
+	//     removed) instead of reporting success without publishing
+	ou := p.Func(dn, "Manager", "onUpdate")
+	r.Refuse(Refuse{ID: "C13.commit.deactivated-document-fails-the-operation", Fn: ou, Cond: CallCheck(Fn("vdr/resolver", "", "IsDeactivated"), -1, IsTrue), Effect: SuccessReturn()})
+	// (c) an operation does not build on a version that is still in the change log
+	np := Fn("vdr/didsubject", "", "noPendingChanges")
+	cou := Fn("vdr/didsubject", "SqlDIDDocumentManager", "CreateOrUpdate")
+	for _, name := range []string{"applyToDIDDocuments", "Deactivate"} {
+		fn := p.Func("vdr/didsubject", "SqlManager", name)
+		cl := one(anonCalling(fn, cou))
+		r.Gate(Gate{ID: "C13.versions.no-operation-on-a-pending-version", Fn: cl, Effect: CallEffect(cou), Check: ErrCheck(np)})
+	}
 }
